@@ -27,7 +27,7 @@ RULE = ("2-3 real threads run short programs under a harness-owned deterministic
         "concurrent register/overload on shared datasets (all aliases present and dispatching afterwards); S4 concurrent "
         "evaluation of shared cached datasets with different options (each thread gets the value of its own options). "
         "part 'systematic': for a fixed family of program sets ALL schedules with one preemption at any yield point, and "
-        "schedules with two preemptions (quick: pairs on a stride of about 1/22 of the run with a seed-dependent offset; "
+        "schedules with two preemptions (quick: pairs on a stride of about 1/48 (handler scenarios) or 1/22 (others) of the run with a seed-dependent offset; "
         "thorough: every pair for short runs, a 1/90 stride for long ones); part 'random': generated programs x random schedules with up to 6 preemptions; part 'lifetimes' (no scheduler, "
         "sequential): main enters/leaves handler blocks while it starts short-lived threads one after the other (joined, so "
         "thread identifiers are recycled) and hands tasks to long-lived pool workers, every worker program optionally starting "
@@ -337,7 +337,10 @@ def enum_systematic(ctx):
         for p in range(1, maxp + 1):
             # one preemption: every yield point; two preemptions: every pair in the thorough tier when the run is short,
             # otherwise pairs on a stride whose offset follows VERIF_SEED (so that different seeds cover different pairs)
-            stride = 1 if p == 1 else max(1, horizon // (90 if ctx.tier == "thorough" else 22))
+            # (handler-block scenarios get a finer grid in the quick tier: the windows in which a second preemption matters
+            # there - between one thread's enter and exit of a shared runtime object - are only a few yield points wide)
+            fine = 48 if base["scenario"] in ("S1", "S2") else 22
+            stride = 1 if p == 1 else max(1, horizon // (90 if ctx.tier == "thorough" else fine))
             offset = ctx.seed % stride
             for pts in itertools.combinations(range(offset, horizon, stride), p):
                 for targets in itertools.product(range(n), repeat=p):
